@@ -29,10 +29,10 @@ theorem inv0_core (h0 : Inv0 s) (hc : stepCore s e = some s1) : Inv0 s1 :=
   ⟨inv0_dr h0 hc, inv0_wfj h0 hc, inv0_detx h0 hc, inv0_fret h0 hc, inv0_tl h0 hc, inv0_cpn h0 hc, inv0_scn h0 hc, inv0_fxn h0 hc, inv0_dst h0 hc, inv0_fj h0 hc, inv0_ff h0 hc, inv0_tcl h0 hc, inv0_fc h0 hc⟩
 
 theorem inv1_core (h0 : Inv0 s) (h1 : Inv1 s) (hc : stepCore s e = some s1) : Inv1 s1 :=
-  ⟨inv1_mb h1.mb h1.hh h1.hw h1.hf hc, inv1_hw h1.hw h1.mb h1.hf h1.hh hc, inv1_hf h1.hf h1.mb h1.hw h1.hh hc, inv1_hh h1.hh h1.hw h1.hf h1.mb hc, inv1_st h1.st h0.fret h1.hf hc, inv1_t0 h1.t0 h0.wfj hc, inv1_tv h1.tv h1.st h1.t0 hc, inv1_wv h1.wv h1.tv hc, inv1_gr h1.gr h1.st hc, inv1_gv h1.gv h1.gr h1.hf hc, inv1_dj h1.dj h0.detx h0.wfj h0.tcl h0.fc h1.hw h0.dr hc⟩
+  ⟨inv1_mb h1.mb h1.hh h1.hw h1.hf hc, inv1_hw h1.hw h1.mb h1.hf h1.hh hc, inv1_hf h1.hf h1.mb h1.hw h1.hh hc, inv1_hh h1.hh h1.hw h1.hf h1.mb hc, inv1_st h1.st h0.fret h1.hf hc, inv1_t0 h1.t0 h0.wfj hc, inv1_tv h1.tv h1.st h1.t0 h0.wfj hc, inv1_wv h1.wv h1.tv hc, inv1_gr h1.gr h1.st hc, inv1_gv h1.gv h1.gr h1.hf hc, inv1_dj h1.dj h0.detx h0.wfj h0.tcl h0.fc h1.hw h0.dr hc, inv1_sc h1.sc h1.hf hc, inv1_jo1 h1.jo1 h1.sc h1.hf h1.gr hc, inv1_jo2 h1.jo2 h1.jo1 h1.hf hc, inv1_jo3 h1.jo3 h1.jo2 hc, inv1_jo4 h1.jo4 h1.jo3 h1.jo2 h1.wv hc, inv1_jo5 h1.jo5 h1.jo4 hc⟩
 
 theorem inv2_core (h0 : Inv0 s) (h1 : Inv1 s) (h2 : Inv2 s) (hc : stepCore s e = some s1) : Inv2 s1 :=
-  ⟨inv2_k3 h2.k3 h0.cpn h0.dr h0.wfj hc, inv2_k4 h2.k4 h2.k3 h0.scn h0.dr h0.wfj hc, inv2_k5 h2.k5 h0.cpn hc, inv2_uq h2.uq h0.cpn h2.k3 hc, inv2_sq h2.sq h2.uq h0.scn h2.k4 hc, inv2_sl h2.sl h2.sq hc, inv2_cv1 h2.cv1 h1.gv h1.hf h1.hw h2.uq hc, inv2_cv2 h2.cv2 h2.cv1 hc, inv2_cv3 h2.cv3 h2.cv2 h1.wv hc, inv2_sv h2.sv h2.cv3 hc, inv2_c1 h2.c1 h2.c4 h2.uq h1.hw hc, inv2_c4 h2.c4 h2.k3 h1.hw h0.wfj h0.dr hc, inv2_c9 h2.c9 h0.fj h0.tl h0.wfj h2.uq h1.hw h1.hf h0.cpn h0.dr hc, inv2_ii h2.ii h2.c9 h2.uq h1.hw h1.hf hc, inv2_iii h2.iii h2.k5 h0.cpn h0.fxn h0.wfj h1.mb h2.uq h1.hf hc, inv2_iv h2.iv h1.hw h2.uq h0.wfj h2.c1 hc, inv2_t4 h2.t4 hc, inv2_dx1 h2.dx1 h2.dx2 h0.scn h2.k4 h2.t4 h0.detx h0.dr hc, inv2_dx2 h2.dx2 h0.cpn h2.k3 h2.t4 h0.detx h0.dr hc⟩
+  ⟨inv2_k3 h2.k3 h0.cpn h0.dr h0.wfj hc, inv2_k4 h2.k4 h2.k3 h0.scn h0.dr h0.wfj hc, inv2_k5 h2.k5 h0.cpn hc, inv2_uq h2.uq h0.cpn h2.k3 hc, inv2_sq h2.sq h2.uq h0.scn h2.k4 hc, inv2_sl h2.sl h2.sq hc, inv2_cv1 h2.cv1 h1.gv h1.hf h1.hw h2.uq hc, inv2_cv2 h2.cv2 h2.cv1 hc, inv2_cv3 h2.cv3 h2.cv2 h2.cv1 h1.wv hc, inv2_sv h2.sv h2.cv3 hc, inv2_c1 h2.c1 h2.c4 h2.uq h1.hw hc, inv2_c4 h2.c4 h2.k3 h1.hw h0.wfj h0.dr hc, inv2_c9 h2.c9 h0.fj h0.tl h0.wfj h2.uq h1.hw h1.hf h0.cpn h0.dr hc, inv2_ii h2.ii h2.c9 h2.uq h1.hw h1.hf hc, inv2_iii h2.iii h2.k5 h0.cpn h0.fxn h0.wfj h1.mb h2.uq h1.hf hc, inv2_iv h2.iv h1.hw h2.uq h0.wfj h2.c1 hc, inv2_t4 h2.t4 hc, inv2_dx1 h2.dx1 h2.dx2 h0.scn h2.k4 h2.t4 h0.detx h0.dr hc, inv2_dx2 h2.dx2 h0.cpn h2.k3 h2.t4 h0.detx h0.dr hc⟩
 
 /-! ### layer 3: no post-exchange access to a destroyed fiber -/
 
